@@ -70,7 +70,7 @@ RemoveStored(s, held) ==
 
 \* the advertised (key,type) pairs that survive the held / already-queued / farthest filters
 Survivors(s, h, list, held) ==
-    {x \in list : /\ held[x[1]] = 0
+    {x \in list : /\ held[x[1]] # x[2]          \* this very version is not held (another version may be)
                   /\ [k |-> x[1], t |-> x[2], h |-> h] \notin s.tf
                   /\ (s.far = 0 \/ x[1] <= s.far)}
 
